@@ -10,7 +10,7 @@
 (* evictions it launches run in goroutines of their own (Evict), possibly  *)
 (* still running when the next pass starts.  Blocks keep arriving (Add).   *)
 (***************************************************************************)
-EXTENDS Integers, FiniteSets, Sequences
+EXTENDS Integers, FiniteSets, Sequences, SequencesExt
 
 CONSTANTS T,        \* torrents
           Low, High,\* marks, in pieces
@@ -20,7 +20,7 @@ CONSTANTS T,        \* torrents
 VARIABLES b,        \* b[t]: pieces held by torrent t
           pass,     \* "idle" | "read" | "crashed"
           space,    \* the total read by PassRead
-          ev,       \* pending evictions: set of [t, target]
+          ev,       \* evictions launched and not yet run: sequence of [t, target] (two passes may each launch one for the same torrent)
           rc,       \* result of the last finished pass (-1, 0, +1) or 9 (none)
           dirty,    \* a block has arrived since the last pass that launched evictions was started
           last
@@ -31,7 +31,7 @@ SumOver(f, S) == IF S = {} THEN 0 ELSE LET x == CHOOSE x \in S : TRUE IN f[x] + 
 Alloc == SumOver(b, T)
 Mid == (Low + High) \div 2
 
-Init == /\ b \in [T -> 0..MaxB] /\ pass = "idle" /\ space = 0 /\ ev = {} /\ rc = 9 /\ dirty = TRUE
+Init == /\ b \in [T -> 0..MaxB] /\ pass = "idle" /\ space = 0 /\ ev = <<>> /\ rc = 9 /\ dirty = TRUE
         /\ last = [a |-> "init"]
 
 Add(t) == /\ b[t] < MaxB /\ b' = [b EXCEPT ![t] = @ + 1] /\ dirty' = TRUE
@@ -57,16 +57,27 @@ PassFinish ==
                IF "DivZero" \in Dev THEN pass' = "crashed" /\ UNCHANGED <<b, ev, rc, dirty>>
                ELSE pass' = "idle" /\ rc' = -1 /\ UNCHANGED <<b, ev, dirty>>
           ELSE LET fair2 == (Low - SmallSpace) \div Cardinality(Big) IN
-               /\ ev' = ev \cup {[t |-> t, target |-> fair2] : t \in {u \in Big : b[u] > fair2}}
+               /\ ev' = ev \o SetToSeq({[t |-> t, target |-> fair2] : t \in {u \in Big : b[u] > fair2}})
                /\ pass' = "idle" /\ rc' = -1 /\ dirty' = FALSE /\ UNCHANGED b
   /\ UNCHANGED space
 
-\* all the evictions that have been launched run to their end
-Evict == /\ ev # {}
-         /\ b' = [t \in T |-> LET tg == {e.target : e \in {x \in ev : x.t = t}} IN
-                               IF tg = {} THEN b[t]
-                               ELSE LET m == CHOOSE m \in tg : \A n \in tg : m <= n IN IF b[t] > m THEN m ELSE b[t]]
-         /\ ev' = {}
+\* All the evictions that have been launched run to their end.  Pieces.Expire
+\* computes what it has to free (its store's size minus the target) when it
+\* starts and then frees that much: two evictions of the same store that run
+\* together may both start from the same size and free twice.  So the result
+\* lies between "each freed its full amount" and "the smallest target".
+MaxOf(x, y) == IF x > y THEN x ELSE y
+MinOf(x, y) == IF x < y THEN x ELSE y
+EvOf(t) == SelectSeq(ev, LAMBDA e : e.t = t)
+RECURSIVE TodoSum(_, _)
+TodoSum(s, cur) == IF s = <<>> THEN 0 ELSE MaxOf(0, cur - Head(s).target) + TodoSum(Tail(s), cur)
+RECURSIVE MinTarget(_)
+MinTarget(s) == IF Len(s) = 1 THEN s[1].target ELSE MinOf(s[1].target, MinTarget(Tail(s)))
+EvLo(t) == MaxOf(0, b[t] - TodoSum(EvOf(t), b[t]))
+EvHi(t) == IF EvOf(t) = <<>> THEN b[t] ELSE MinOf(b[t], MinTarget(EvOf(t)))
+Evict == /\ ev # <<>>
+         /\ b' \in [T -> 0..MaxB] /\ \A t \in T : b'[t] \in EvLo(t)..EvHi(t)
+         /\ ev' = <<>>
          /\ last' = [a |-> "Evict"]
          /\ UNCHANGED <<pass, space, rc, dirty>>
 
@@ -77,5 +88,6 @@ TypeOK == /\ b \in [T -> 0..MaxB] /\ pass \in {"idle", "read", "crashed"} /\ rc 
 NoCrash == pass # "crashed"
 \* a pass that has launched its evictions, once they are done and if nothing arrived meanwhile,
 \* has brought the total down to the low-water mark
-DownToLow == (rc = -1 /\ ev = {} /\ ~dirty /\ pass = "idle") => Alloc <= Low
+DownToLow == (rc = -1 /\ ev = <<>> /\ ~dirty /\ pass = "idle") => Alloc <= Low
+FewEv == Len(ev) <= 4
 =============================================================================
